@@ -40,7 +40,9 @@ theorem tick_sw_apply (s : Server) (b : Backup) (t : Nat) (pq pr big k : Bool) :
     simp only [TickW.of] at this ⊢
     by_cases h : s.fixCd ≤ 1
     · simp [hf, this, h, C17_tr_restore]
-    · simp [hf, this, h]
+    · -- (the countdown left is ≥ 1: `is None`, `not …` and `== None` all say "not over yet")
+      have h0 : ¬ ((s.fixCd : Int) - 1 = 0) := by omega
+      simp [hf, this, h, h0]
   · simp [hf]
 
 theorem tick_restore_cds (s : Server) (b : Backup) (pq pr k : Bool) :
